@@ -141,6 +141,9 @@ def segmentations(rng, data, n_random):
         cuts = sorted(rng.sample(range(1, len(data)), min(len(data) - 1, rng.randint(1, 5)))) if len(data) > 1 else []
         segs = [data[a:b] for a, b in zip([0] + cuts, cuts + [len(data)])]
         yield segs
+    if len(data) > 2000:  # long streams: network-sized (MSS) and block-sized segments
+        for step in (1460, block_size()):
+            yield [data[i : i + step] for i in range(0, len(data), step)]
 
 
 def gen_line(rng):
@@ -429,6 +432,194 @@ def empty_line_corpus():
     return cases
 
 
+# ---- the SIZE dimension: replies whose framed size sits on / around the sizes at which buffers, blocks and
+# ---- flow control change state (aioftp.DEFAULT_BLOCK_SIZE, its fractions and multiples, the 64 KiB stream limits)
+FILL_UNITS = ["a", "ab1 -x", "é2", "0123456789"]
+PACK_MIN = 200
+
+
+def fill(unit, n):
+    return (unit * (n // len(unit) + 1))[:n]
+
+
+def fill_sized(unit, size, enc=None):
+    """LF-free text of exactly `size` characters (enc None) or exactly `size` bytes under `enc`:
+    the unit repeated, padded with 'a'"""
+    if size <= 0:
+        return ""
+    if enc is None:
+        return fill(unit, size)
+    ub = len(unit.encode(enc))
+    s = unit * (size // ub)
+    rem = size - (size // ub) * ub
+    for ch in unit:
+        b = len(ch.encode(enc))
+        if b > rem:
+            break
+        s += ch
+        rem -= b
+    return s + "a" * rem
+
+
+def pack_line(line):
+    """compact, exact representation of a long generated line for replay files"""
+    if not isinstance(line, str) or len(line) <= PACK_MIN:
+        return line
+    for unit in FILL_UNITS:
+        body = line if unit == "a" else line.rstrip("a")
+        if body == fill(unit, len(body)):
+            return {"fill": unit, "n": len(body), "pad": len(line) - len(body)}
+    return line
+
+
+def unpack_line(x):
+    if isinstance(x, dict):
+        return fill(x["fill"], x["n"]) + "a" * x["pad"]
+    return x
+
+
+def pack_reply(r):
+    return [r[0], [pack_line(l) for l in r[1]], r[2]]
+
+
+def unpack_reply(r):
+    return [r[0], [unpack_line(l) for l in r[1]], r[2]]
+
+
+def pack_item(it):
+    if it[0] == "good":
+        return ["good", it[1], [pack_line(l) for l in it[2]], it[3]]
+    return ["bad", it[1], it[2], pack_line(it[3]), [pack_line(l) for l in it[4]], pack_line(it[5])]
+
+
+def unpack_item(it):
+    if it[0] == "good":
+        return ["good", it[1], [unpack_line(l) for l in it[2]], it[3]]
+    return ["bad", it[1], it[2], unpack_line(it[3]), [unpack_line(l) for l in it[4]], unpack_line(it[5])]
+
+
+def brief(x, keep=48):
+    """diagnostic fields of a replay (decoded / expected / wire): long strings abbreviated; the INPUT
+    fields stay exact (packed)"""
+    if isinstance(x, str):
+        return x if len(x) <= 2 * keep + 24 else "%s...(%d chars)...%s" % (x[:keep], len(x), x[-keep // 2:])
+    if isinstance(x, (list, tuple)):
+        if len(x) > 12:
+            return [brief(y, keep) for y in x[:4]] + ["...(%d items)..." % len(x)] + [brief(y, keep) for y in x[-3:]]
+        return [brief(y, keep) for y in x]
+    return x
+
+
+def pack_segs(segs):
+    return [len(x) for x in segs]
+
+
+SENTINEL = ["200", ["sentinel ok"], False]
+
+
+def sized_sequences(rng, sized, thorough):
+    """reply SEQUENCES around the size corpus: every sized reply followed by another reply on the same
+    stream (the property speaks about the stream: what one reply leaves behind is seen by the next),
+    some between two small replies, some back to back with another sized one"""
+    primary, _ = size_bounds()
+    out = []
+    for i, (code, lines, lm, enc) in enumerate(sized):
+        near_primary = any(abs(sum(map(len, lines)) + framing_overhead(len(lines), lm) - t) <= 4 for t in primary)
+        if not (thorough or near_primary or i % 3 == 0):
+            continue
+        big = [code, lines, lm]
+        seq = [big, SENTINEL]
+        if i % 4 == 1:
+            seq = [gen_reply(rng, CODES, 0.0), big, SENTINEL]
+        elif i % 4 == 2:
+            c2, l2, lm2, _ = sized[(i * 7 + 3) % len(sized)]
+            seq = [big, [c2, l2, lm2], SENTINEL]
+        elif i % 4 == 3:
+            seq = [big, big, gen_reply(rng, CODES, 0.0)]
+        texts = [l for r in seq for l in r[1]]
+        out.append((seq, enc if all(encodable(t, enc) for t in texts) else "utf-8"))
+    return out
+
+
+def block_size():
+    return int(getattr(aioftp, "DEFAULT_BLOCK_SIZE", 8192))
+
+
+def size_bounds():
+    """sizes around which the reply path may change behaviour: the library's block size, its half and
+    multiples, a page, the 64 KiB stream limit / high-water mark"""
+    b = block_size()
+    return [b, 2 * b], sorted({b // 2, 3 * b, 4 * b, 4096, 65536} - {b, 2 * b})
+
+
+def framing_overhead(n, lm):
+    """characters a reply of n lines adds around the line texts (3-digit code, separator, CRLF)"""
+    return 12 + 3 * (n - 2) if lm else 6 * n
+
+
+def sized_lines(n, lm, total, unit, enc=None, reach_at=None):
+    """n lines whose framed reply has exactly `total` characters (bytes under `enc`).  The text is spread
+    evenly; with reach_at = k the first k lines already carry the whole size and the others are short"""
+    k = n if reach_at is None else reach_at
+    short = ["t%d" % i for i in range(n - k)]
+    payload = total - framing_overhead(n, lm) - sum(len(x) for x in short)
+    if payload < 0 or k < 1:
+        return None
+    q = payload // k
+    sizes = [q] * (k - 1) + [payload - q * (k - 1)]
+    return [fill_sized(unit, z, enc) for z in sizes] + short
+
+
+def size_corpus(thorough):
+    """deterministic (seed-independent) replies around every size bound: a single long line, 2..129 lines
+    whose LAST line completes the size, many equal short lines summing to it, the size reached in the
+    middle of the reply; both framing modes; sizes counted in characters and (utf-8, 2-byte text) in bytes"""
+    primary, secondary = size_bounds()
+    cases, idx = [], 0
+    for bound, deltas in [(t, (-3, -2, -1, 0, 1, 2, 3, 700)) for t in primary] + [(t, (-1, 0, 1) if not thorough else (-2, -1, 0, 1, 2)) for t in secondary]:
+        for d in deltas:
+            total = bound + d
+            shapes = [(1, False, None)]
+            for n in (2, 3, 4, 41, 129):
+                shapes += [(n, False, None), (n, True, None)]
+            shapes += [(5, False, 3), (6, True, 4)]
+            if d == 0:
+                shapes += [(total // 32, False, None), (total // 64, True, None), (total // 8, False, None)]
+            for n, lm, reach in shapes:
+                idx += 1
+                unit = FILL_UNITS[idx % len(FILL_UNITS)]
+                if unit == "é2":
+                    enc, measure = ("utf-8", "utf-8") if idx % 8 < 4 else ("latin-1", None)
+                else:
+                    enc, measure = "utf-8", None
+                lines = sized_lines(n, lm, total, unit, measure, reach)
+                if lines is None:
+                    continue
+                code = CODES[idx % len(CODES)]
+                cases.append((code, lines, lm, enc))
+    return cases
+
+
+def gen_sized_reply(rng, codes=SEQ_CODES):
+    """a random reply whose framed size is near a size bound (or anywhere up to 70000), 1..200 lines"""
+    primary, secondary = size_bounds()
+    r = rng.random()
+    if r < 0.5:
+        total = rng.choice(primary) + rng.randint(-4, 4)
+    elif r < 0.75:
+        total = rng.choice(secondary) + rng.randint(-2, 2)
+    else:
+        total = int(2 ** rng.uniform(9, 16.1))
+    n = rng.choice([1, 1, 2, 3, 5, 17, 64, 200])
+    lm = n >= 2 and rng.random() < 0.5
+    unit = rng.choice(FILL_UNITS)
+    reach = rng.randint(1, n) if n > 2 and rng.random() < 0.3 else None
+    lines = sized_lines(n, lm, total, unit, "utf-8" if unit == "é2" and rng.random() < 0.5 else None, reach)
+    if lines is None:
+        lines, lm = [fill(unit, max(total - 6, 0))], False
+    return [rng.choice(codes), lines, lm]
+
+
 def correspondence(ctx, budget=None):
     rng = ctx.rng
     thorough = ctx.tier == "thorough"
@@ -467,7 +658,10 @@ def correspondence(ctx, budget=None):
     ctx.count("encode_codec_sweep", len(sweep))
     empties = empty_line_corpus()
     ctx.count("encode_empty_line_corpus", len(empties))
-    enc_cases += sweep + empties
+    sized = size_corpus(thorough)
+    ctx.count("encode_size_corpus", len(sized))
+    ctx.count("encode_size_corpus_bytes", sum(sum(map(len, c[1])) for c in sized))
+    enc_cases += sweep + empties + sized
     for _ in range(n_rand):
         code = rng.choice(CODES) if rng.random() < 0.7 else "".join(rng.choice("0123456789") for _ in range(3))
         n = rng.choice([1, 1, 2, 2, 3, 4, 6])
@@ -489,18 +683,18 @@ def correspondence(ctx, budget=None):
         if im[0] == "err":
             mcanon = ("err", "ValueError") if mo[0] == -1 else ("ok", None)
             if mcanon != im:
-                ctx.disagree("write_response", [code, lines, lm], mo, im)
+                ctx.disagree("write_response", brief([code, lines, lm]), mo, im)
             if len(lines) >= (2 if lm else 1):  # inside the property's domain: the server must emit it
                 ctx.violation(
                     "the server raised instead of emitting a reply",
-                    {"key": "c06-encode-raised", "code": code, "lines": lines, "list": lm, "encoding": enc, "raised": im[1]},
+                    {"key": "c06-encode-raised", "code": code, "lines": [pack_line(l) for l in lines], "list": lm, "encoding": enc, "raised": im[1]},
                 )
             continue
         if mo[0] == -1 or sx.txt(mo[1]).encode(enc) != im[1]:
-            ctx.disagree("write_response", [code, lines, lm, enc], str(mo)[:300], repr(im[1])[:300])
-        if len(xcheck) < 40:
+            ctx.disagree("write_response", brief([code, lines, lm, enc]), str(mo)[:300], repr(im[1])[:300])
+        if len(xcheck) < 40 and sum(map(len, lines)) < 400:
             xcheck.append((0, [code, lines, lm], mo))
-        ctx.sample({"stream": "encode", "code": code, "lines": lines, "list": lm, "wire": im[1].decode(enc)})
+        ctx.sample({"stream": "encode", "code": code, "lines": brief(lines), "list": lm, "wire": brief(im[1].decode(enc))})
         # lines with LF are outside the property's domain (a line is LF-free)
         if any("\n" in l for l in lines):
             continue
@@ -522,15 +716,15 @@ def correspondence(ctx, budget=None):
             ctx.traces_impl += 1
             r, rest = canon_presult(impl_parse_response(loop, clients[enc], segs))
             if r != mcanon or (mrest is not None and rest != mrest):
-                ctx.disagree("parse_response", {"wire": data.decode(enc), "segs": list(map(len, segs))}, [mcanon, repr(mrest)], [r, repr(rest)])
+                ctx.disagree("parse_response", {"wire": brief(data.decode(enc)), "segs": brief(list(map(len, segs)))}, brief([mcanon, repr(mrest)]), brief([r, repr(rest)]))
             # property oracle on the implementation
             if r != want or rest != follow:
                 ctx.violation(
                     "reply decoded differently from what was encoded",
-                    {"key": "c06-roundtrip", "code": code, "lines": lines, "list": lm, "encoding": enc,
-                     "segments": list(map(len, segs)), "decoded": r, "expected": want, "rest": repr(rest)},
+                    {"key": "c06-roundtrip", "code": code, "lines": [pack_line(l) for l in lines], "list": lm, "encoding": enc,
+                     "segments": pack_segs(segs), "framed_size": len(wire), "decoded": brief(r), "expected": brief(want), "rest": brief(repr(rest))},
                 )
-        if len(xcheck) < 80:
+        if len(xcheck) < 80 and len(data) < 400:
             xcheck.append((1, [data.decode(enc)], mo))
     ctx.count("decode_wires", len(decode_jobs))
 
@@ -646,6 +840,23 @@ def correspondence(ctx, budget=None):
         enc = pick_enc(rng, [l for r in replies for l in r[1]])
         cmd_cases.append((replies, cmds, enc, rng.random()))
     ctx.count("command_random", n_cmd)
+    n_before = len(cmd_cases)
+    for k, (seq, enc) in enumerate(sized_sequences(rng, sized, thorough)):
+        if not thorough and k % 2:
+            continue
+        first = seq[0][0]
+        cmds = [[[[first[0] + "xx"], []], [["xxx"], []], [["xxx", "2"], []]],
+                [[[], [first]], [["xxx"], []]],
+                [[["xxx"], []]] * (len(seq) + 1)][k % 3]
+        cmd_cases.append((seq, cmds, enc, 0.5 if k % 2 else None))
+    for _ in range(n_cmd // 20):
+        pool = rng.sample(SEQ_CODES, 3)
+        replies = [gen_sized_reply(rng, pool) if rng.random() < 0.5 else gen_reply(rng, pool) for _ in range(rng.randint(2, 4))]
+        in_play = [r[0] for r in replies]
+        cmds = [[gen_masks(rng, in_play), [m for m in gen_masks(rng, in_play) if any(ch.isdigit() for ch in m)]] for _ in range(rng.choice([1, 2, 3]))]
+        cmds = [c if c[0] or c[1] else [["xxx"], []] for c in cmds]  # command(None, (), ()) is not a call the library supports
+        cmd_cases.append((replies, cmds, pick_enc(rng, [l for r in replies for l in r[1]]), rng.random()))
+    ctx.count("command_sized_sequences", len(cmd_cases) - n_before)
     cmd_jobs = []
     for replies, cmds, enc, r in cmd_cases:
         wires = encode_replies(loop, servers[enc], replies)
@@ -662,7 +873,7 @@ def correspondence(ctx, budget=None):
         got, rest = impl_commands(loop, clients[enc], cmds, segs)
         m_out, m_rest = model_cresults(o, enc)
         if got != m_out or (m_rest is not None and rest != m_rest):
-            ctx.disagree("command", {"commands": cmds, "wire": data.decode(enc), "segs": list(map(len, segs))}, str([m_out, m_rest]), str([got, rest]))
+            ctx.disagree("command", {"commands": cmds, "wire": brief(data.decode(enc)), "segs": brief(pack_segs(segs))}, str(brief([m_out, repr(m_rest)])), str(brief([got, repr(rest)])))
         want, left, st = spec_commands(replies, cmds)
         want_rest = b"".join(wires[left:])
         ctx.count("command_first_" + ["ok", "statuserror", "reset"][want[0][0]])
@@ -673,12 +884,12 @@ def correspondence(ctx, budget=None):
         if got != want or rest != want_rest:
             ctx.violation(
                 "command() did not return the first reply matching no wait mask / did not leave exactly the following replies",
-                {"key": "c06-command-loop", "replies": replies, "commands": cmds, "encoding": enc, "segments": list(map(len, segs)),
-                 "wire": data.decode(enc), "got": got, "expected": want, "rest": repr(rest), "expected_rest": repr(want_rest)},
+                {"key": "c06-command-loop", "replies": [pack_reply(x) for x in replies], "commands": cmds, "encoding": enc, "segments": pack_segs(segs),
+                 "wire": brief(data.decode(enc)), "got": brief(got), "expected": brief(want), "rest": brief(repr(rest)), "expected_rest": brief(repr(want_rest))},
             )
-        if len(xcheck) < 140 and r is not None:
+        if len(xcheck) < 140 and r is not None and len(data) < 400:
             xcheck.append((6, [cmds, data.decode(enc)], o))
-    ctx.sample({"stream": "command", "commands": cmd_jobs[-1][1], "wire": b"".join(cmd_jobs[-1][3]).decode(cmd_jobs[-1][2])})
+    ctx.sample({"stream": "command", "commands": cmd_jobs[-1][1], "wire": brief(b"".join(cmd_jobs[-1][3]).decode(cmd_jobs[-1][2]))})
 
     # ---------------- (g) whole reply sequences decoded by successive parse_response calls: replies of
     # all three forms interleaved with rejected ones (closing line of another code) and, for the
@@ -705,6 +916,22 @@ def correspondence(ctx, budget=None):
                 in_domain = False
         enc = pick_enc(rng, [x for it in items for x in ([it[1]] + it[2] if it[0] == "good" else [it[1], it[2], it[3], it[5]] + it[4])])
         seq_cases.append((items, enc, in_domain))
+    n_before = len(seq_cases)
+    for seq, enc in sized_sequences(rng, sized, thorough):
+        seq_cases.append(([["good"] + list(r) for r in seq], enc, True))
+    for _ in range(n_seq // 20):  # random: sized replies between small ones and rejected ones
+        items = []
+        for _ in range(rng.randint(2, 4)):
+            r = rng.random()
+            if r < 0.5:
+                items.append(["good"] + gen_sized_reply(rng, CODES))
+            elif r < 0.85:
+                items.append(["good"] + gen_reply(rng, CODES, 0.3))
+            else:
+                code, other = rng.sample(CODES, 2)
+                items.append(["bad", code, other, "h", [fill("ab1 -x", rng.choice(size_bounds()[0]) - 20 + rng.randint(-3, 3))], "tail"])
+        seq_cases.append((items, pick_enc(rng, [x for it in items for x in (it[2] if it[0] == "good" else [it[3], it[5]] + it[4])]), True))
+    ctx.count("sequence_sized", len(seq_cases) - n_before)
     seq_jobs = []
     for items, enc, in_domain in seq_cases:
         wires = []
@@ -730,7 +957,7 @@ def correspondence(ctx, budget=None):
         got, rest = impl_parse_all(loop, clients[enc], len(items) + 1, segs)
         m_out = model_presults(o)
         if got != m_out[: len(items) + 1]:
-            ctx.disagree("parse_sequence", {"wire": data.decode(enc), "segs": list(map(len, segs))}, str(m_out), str(got))
+            ctx.disagree("parse_sequence", {"wire": brief(data.decode(enc)), "segs": brief(pack_segs(segs))}, str(brief(m_out)), str(brief(got)))
         ctx.count("sequence_in_domain" if in_domain else "sequence_odd_codes")
         ctx.count("sequence_items_good", sum(it[0] == "good" for it in items))
         ctx.count("sequence_items_rejected", sum(it[0] == "bad" for it in items))
@@ -739,12 +966,12 @@ def correspondence(ctx, budget=None):
             if got != want or rest != b"":
                 ctx.violation(
                     "a reply sequence was not decoded reply by reply (a reply mis-framed, or one desynchronised a later one)",
-                    {"key": "c06-sequence", "items": items, "encoding": enc, "segments": list(map(len, segs)),
-                     "wire": data.decode(enc), "got": got, "expected": want, "rest": repr(rest)},
+                    {"key": "c06-sequence", "items": [pack_item(it) for it in items], "encoding": enc, "segments": pack_segs(segs),
+                     "wire": brief(data.decode(enc)), "got": brief(got), "expected": brief(want), "rest": brief(repr(rest))},
                 )
-        if len(xcheck) < 160:
+        if len(xcheck) < 160 and len(data) < 400:
             xcheck.append((5, [data.decode(enc)], o))
-    ctx.sample({"stream": "sequence", "wire": b"".join(seq_jobs[-1][3]).decode(seq_jobs[-1][1])})
+    ctx.sample({"stream": "sequence", "wire": brief(b"".join(seq_jobs[-1][3]).decode(seq_jobs[-1][1]))})
 
     # ---------------- (f) server parse_command
     pc_cases = []
@@ -803,14 +1030,18 @@ def replay(ctx, data):
     if r.get("key") == "c06-roundtrip":
         server = aioftp.Server(encoding=enc)
         client = aioftp.Client(encoding=enc)
+        r["lines"] = [unpack_line(l) for l in r["lines"]]
         kind, wire = impl_write_response(loop, server, r["code"], r["lines"], r["list"])
+        if kind != "ok":
+            print("the server raised while encoding the reply:", wire)
+            return False
         data_b = wire + b"226 next\r\n"
         segs, pos = [], 0
         for n in r["segments"]:
             segs.append(data_b[pos : pos + n])
             pos += n
         got, rest = canon_presult(impl_parse_response(loop, client, segs))
-        print("decoded:", got, "rest:", rest)
+        print("framed size:", len(wire), "decoded:", brief(got), "rest:", brief(repr(rest)))
         return got == [0, r["code"], expected_info(r["code"], r["lines"], r["list"])] and rest == b"226 next\r\n"
     if r.get("key") == "c06-matches":
         try:
@@ -820,10 +1051,11 @@ def replay(ctx, data):
         print("matches:", im)
         return im == spec_match(r["mask"], r["code"])
     if r.get("key") == "c06-encode-raised":
-        im = impl_write_response(loop, aioftp.Server(encoding=enc), r["code"], r["lines"], r["list"])
-        print("write_response:", im)
+        im = impl_write_response(loop, aioftp.Server(encoding=enc), r["code"], [unpack_line(l) for l in r["lines"]], r["list"])
+        print("write_response:", brief(repr(im)))
         return im[0] == "ok"
     if r.get("key") == "c06-command-loop":
+        r["replies"] = [unpack_reply(x) for x in r["replies"]]
         wires = encode_replies(loop, aioftp.Server(encoding=enc), r["replies"])
         if wires is None:
             print("the server raised while encoding the replies")
@@ -831,11 +1063,12 @@ def replay(ctx, data):
         data_b = b"".join(wires)
         got, rest = impl_commands(loop, aioftp.Client(encoding=enc), r["commands"], cut(data_b, r["segments"]))
         want, left, _ = spec_commands(r["replies"], r["commands"])
-        print("wire:", data_b, "\ncommands:", r["commands"], "\ngot:     ", got, "rest:", rest, "\nexpected:", want, "rest:", b"".join(wires[left:]))
+        print("wire:", brief(repr(data_b)), "\ncommands:", r["commands"], "\ngot:     ", brief(got), "rest:", brief(repr(rest)), "\nexpected:", brief(want), "rest:", brief(repr(b"".join(wires[left:]))))
         return got == want and rest == b"".join(wires[left:])
     if r.get("key") == "c06-sequence":
         server = aioftp.Server(encoding=enc)
         wires = []
+        r["items"] = [unpack_item(it) for it in r["items"]]
         for it in r["items"]:
             if it[0] == "good":
                 im = impl_write_response(loop, server, it[1], list(it[2]), it[3])
@@ -848,7 +1081,7 @@ def replay(ctx, data):
         data_b = b"".join(wires)
         got, rest = impl_parse_all(loop, aioftp.Client(encoding=enc), len(r["items"]) + 1, cut(data_b, r["segments"]))
         want = [[0, it[1], expected_info(it[1], it[2], it[3])] if it[0] == "good" else [1, it[1], it[2]] for it in r["items"]] + [[2]]
-        print("wire:", data_b, "\ngot:     ", got, "rest:", rest, "\nexpected:", want)
+        print("wire:", brief(repr(data_b)), "\ngot:     ", brief(got), "rest:", brief(repr(rest)), "\nexpected:", brief(want))
         return got == want and rest == b""
     if r.get("key") == "c06-parse-command":
         kind, val, rest = impl_parse_command(loop, aioftp.Server(encoding=enc), [(r["verb"] + " " + r["arg"] + "\r\n").encode(enc)])
